@@ -46,6 +46,7 @@ reg("C16", "h_c16")
 reg("C10", "h_c10")
 reg("C11", "h_c11")
 reg("C11", "h_c10")
+reg("C13", "h_c13")
 
 # quick / thorough wall-clock budgets per check (seconds); hitting one ends the run with exhaustive:false
 DEADLINE = {"quick": 150, "thorough": 1500}
